@@ -60,16 +60,19 @@ End Fuel2.
 Fixpoint nodupb (l : list N) : bool :=
   match l with [] => true | x :: t => negb (nmem x t) && nodupb t end.
 
-Definition sweep3 (fuel : nat) (order : list N) : bool :=
-  let (m, hs) := build3 fuel order in
+(* the whole check for a given manager and handle table *)
+Definition check3 (fuel : nat) (m : mgr) (hs : list N) : bool :=
   (length hs =? 256)%nat && nodupb hs &&
   forallb (table_ok m hs) tabs256 &&
   forallb (fun ta => neg_ok fuel m hs ta &&
                      forallb (fun tb => pair_ok fuel m hs ta tb And && pair_ok fuel m hs ta tb Or) tabs256) tabs256.
 
-(* strided version for timing / the quick correspondence *)
-Definition sweep3_some (fuel : nat) (order : list N) (tas : list N) : bool :=
-  let (m, hs) := build3 fuel order in
+Definition check3_some (fuel : nat) (m : mgr) (hs : list N) (tas : list N) : bool :=
   (length hs =? 256)%nat && nodupb hs &&
   forallb (fun ta => neg_ok fuel m hs ta &&
                      forallb (fun tb => pair_ok fuel m hs ta tb And && pair_ok fuel m hs ta tb Or) tabs256) tas.
+
+Definition m3 (order : list N) : mgr := fst (build3 FUEL3 order).
+Definition h3 (order : list N) : list N := snd (build3 FUEL3 order).
+Definition sweep3 (order : list N) : bool := check3 FUEL3 (m3 order) (h3 order).
+Definition sweep3_some (order : list N) (tas : list N) : bool := check3_some FUEL3 (m3 order) (h3 order) tas.
